@@ -59,6 +59,7 @@ func verifyFunction(p *Program, ct *Contracts, fc *FuncContract, cc *CaseContrac
 	f := e.newFrame(fn, 0)
 	f.top = true
 	f.fc = fc
+	e.guardsOn = curProp == guardProp
 	st := &State{heap: map[string]string{}}
 	pc := "true"
 	// parameters
@@ -81,6 +82,14 @@ func verifyFunction(p *Program, ct *Contracts, fc *FuncContract, cc *CaseContrac
 		e.assumeAllocated(st, pc, v)
 	}
 	e.assume("true", not(sel(e.comp(st, "alloc", arrSort(sBool)), "0"))) // nil is never an allocated object
+	for _, un := range fc.Unshared {
+		if v := f.params[un]; v != nil {
+			e.unshared = append(e.unshared, v.T)
+			e.note("lock discipline: parameter " + un + " of " + fc.Name + " is declared unshared (no other goroutine can reach it yet)")
+		} else {
+			e.fail("unshared: no parameter %s", un)
+		}
+	}
 	for _, u := range fc.Uses {
 		e.useLemma(u)
 	}
@@ -281,13 +290,28 @@ func (f *Frame) frameGoal(k string, st *State) string {
 func (f *Frame) evalClause(cl *Clause, st *State, b *ssa.BasicBlock) string {
 	env := f.contractEnv(st, f.entry)
 	env.local = func(name string) *Value { return f.localAt(name, b, st) }
+	f.bindSeen(env, b)
 	return env.evalBool(cl.Expr)
 }
 
 func (f *Frame) evalClauseSplit(cl *Clause, st *State, b *ssa.BasicBlock) []string {
 	env := f.contractEnv(st, f.entry)
 	env.local = func(name string) *Value { return f.localAt(name, b, st) }
+	f.bindSeen(env, b)
 	return env.evalSplit(cl.Expr)
+}
+
+// bindSeen: when loop head b advances a map iterator, seen(k) in its invariants names that iterator's visited set.
+func (f *Frame) bindSeen(env *Env, b *ssa.BasicBlock) {
+	for _, ins := range b.Instrs {
+		if nx, ok := ins.(*ssa.Next); ok && !nx.IsString {
+			if it, ok := f.vals[nx.Iter]; ok && it != nil && it.Iter != nil && it.Iter.Kind == "map" {
+				mt := it.Iter.Map.Type.Underlying().(*types.Map)
+				env.seenComp, env.seenSort = it.Iter.Seen, f.e.sorts.sortOf(mt.Key())
+				return
+			}
+		}
+	}
 }
 
 // localAt resolves a source-level local variable name at loop head b.
